@@ -82,11 +82,26 @@ def finOf (nr : Nat) (st : State) : String :=
   | none => "-"
   | some i => "|".intercalate ((List.range nr).map (fun r => showOut (i.readc r).2))
 
+def isDead (st : State) : Bool := match st.inc with | some i => i.dead | none => false
+
+/-- index of the step that kills the incremental worker, if any -/
+def deathStep (states : List State) : Option Nat :=
+  (List.range states.length).find? (fun k => isDead (states.getD k {}))
+
+/-- the write call during which the worker dies either returns an error or never returns (it waits
+    for an answer of the dead worker while holding the KG write lock); the run is reported up to the
+    boundary before that step. -/
 def modelOut (r : Req) : String :=
   let states := trace r.init r.full
-  let fin := states.getLastD r.init
-  let res := "/".intercalate ((List.range r.progs.length).map (fun t => showRes (resStepsAux t states 0)))
-  s!"res={res} obs={" ".intercalate (states.map (obsOf r.nr))} fin={finOf r.nr fin}"
+  match deathStep states with
+  | some k1 =>
+    let states := states.take k1
+    let res := "/".intercalate ((List.range r.progs.length).map (fun t => showRes (resStepsAux t states 0)))
+    s!"res={res} obs={" ".intercalate (states.map (obsOf r.nr))} fin=dead@{k1 - 1}"
+  | none =>
+    let fin := states.getLastD r.init
+    let res := "/".intercalate ((List.range r.progs.length).map (fun t => showRes (resStepsAux t states 0)))
+    s!"res={res} obs={" ".intercalate (states.map (obsOf r.nr))} fin={finOf r.nr fin}"
 
 /-! ### parsing the implementation's output (for the Spec oracles) -/
 
@@ -115,6 +130,7 @@ structure Impl where
   res : List (List (Nat × IOut))      -- per thread: (step index, output) in program order
   obs : List (List (List Nat))        -- per boundary, per relation
   fin : List IOut
+  dead : Option Nat := none           -- `fin=dead@k`
 
 def parseImpl (impl : String) : Option Impl :=
   match impl.splitOn " obs=" with
@@ -122,8 +138,8 @@ def parseImpl (impl : String) : Option Impl :=
     | [o, f] =>
       match optMapM parseResList ((dropStr 4 a).splitOn "/"),
             optMapM (fun img => optMapM parseIds (img.splitOn "|")) (o.splitOn " "),
-            (if f == "-" then some [] else optMapM parseIOut (f.splitOn "|")) with
-      | some res, some obs, some fin => some { res := res, obs := obs, fin := fin }
+            (if f == "-" || f.startsWith "dead@" then some [] else optMapM parseIOut (f.splitOn "|")) with
+      | some res, some obs, some fin => some { res := res, obs := obs, fin := fin, dead := if f.startsWith "dead@" then (dropStr 5 f).toNat? else none }
       | _, _, _ => none
     | _ => none
   | _ => none
